@@ -131,6 +131,31 @@ def run(chk, n):
             chk.extra.setdefault("strata", {})[f"random_{kn}_watcher{w}"] = len(cases)
 
 
+def spec_check_async(kind, rows, lf, ops, obs, impl):
+    return spec_check(kind, rows, lf, ops, obs, impl)
+
+
+spec_check_async.case_extra = dict(enforcer="AsyncEnforcer")
+
+
+def run_async(chk, n):
+    """the same histories on the AsyncEnforcer (each call awaited; plain, non-coroutine watcher callbacks)"""
+    from ..async_facade import AsyncFacade
+    rng = chk.rng
+    for kn in ("acl", "rbac"):
+        for w in (1, 2, 3):
+            kind = mgmt.KINDS[kn].with_(adapter=True, watcher=w)
+            cases = []
+            for _ in range(n):
+                g = mgmt.Gen(rng, kind, W)
+                rows = g.rows(rng.randint(0, 6))
+                cases.append((rows, True, g.history(rng.randint(3, 12), final_probe=False)))
+            mgmt.run_cases(chk, kind, cases, spec_check_async, label=f"random-async-{kn}-watcher{w}",
+                           impl_kwargs=dict(enforcer_cls=AsyncFacade),
+                           key_fn=lambda k, r, o: ("async", k.name, k.watcher, repr([x for x in o if x[0] < 50])))
+            chk.extra.setdefault("strata", {})[f"random_async_{kn}_watcher{w}"] = len(cases)
+
+
 def swap_execute(kn, w1, w2, rows, ops1, ops2):
     kind1 = mgmt.KINDS[kn].with_(adapter=True, watcher=w1)
     kind2 = kind1.with_(watcher=w2)
@@ -234,7 +259,7 @@ def main():
     chk.assumptions = ["save_policy notifies whenever a watcher is set (the property's last clause; the code does not consult "
                        "auto-notify there, like the Go reference)",
                        "delete_user / delete_role are two underlying management calls: one notification per successful one",
-                       "sync enforcer here; the async twin is tied to it by C18"]
+                       "async enforcer: ACL/RBAC histories with plain (non-coroutine) watcher callbacks here; coroutine callbacks and the twin equality are C18"]
     chk.trusted = ["hand-written models coq/theories/{Policy,RoleGraph,Mgmt}.v tied by the differential history correspondence"]
     chk.build(oracle_name="Mgmt")
     if chk.replay_file:
@@ -242,13 +267,18 @@ def main():
         c = (json.load(open(chk.replay_file)).get("case") or {})
         if c.get("stratum") == "watcher-replaced":
             return replay_swap(chk, c)
+        if c.get("enforcer") == "AsyncEnforcer":
+            from ..async_facade import AsyncFacade
+            return mgmt.replay_case(chk, spec_check_async, impl_kwargs=dict(enforcer_cls=AsyncFacade))
         return mgmt.replay_case(chk, spec_check)
     if chk.tier == "thorough":
         run(chk, 600)
         run_swap(chk, 1500)
+        run_async(chk, 300)
     else:
         run(chk, 60)
         run_swap(chk, 150)
+        run_async(chk, 30)
         if chk.broken() and not chk.spec_failures:
             run(chk, 300)
     chk.finish()
